@@ -1104,11 +1104,81 @@ func ruleErrStructure(r *Run) {
 				"FormatError returns the empty list for something that is not the nil error: that error disappears from the response, and a step that failed only with it is treated as a success with no data")
 		}
 	}
-	for _, fn := range []*ssa.Function{ext, fe} {
+	// the functions that take part in formatting: the two entry points and the helpers of
+	// their package they call that handle error lists (a `compact(list)` step, a shared
+	// `formatErrorSlice` builder)
+	region := []*ssa.Function{}
+	seenFn := map[*ssa.Function]bool{}
+	for _, root := range []*ssa.Function{ext, fe} {
+		if root == nil {
+			continue
+		}
+		for g := range r.P.CG.Reachable([]*ssa.Function{root}, nil) {
+			if seenFn[g] || topFn(g).Pkg != topFn(root).Pkg {
+				continue
+			}
+			handlesList := g == root
+			for _, p := range g.Params {
+				if strings.Contains(p.Type().String(), "ErrorList") || strings.Contains(p.Type().String(), "gqlerror.List") || strings.Contains(p.Type().String(), "gqlerrors.Error") {
+					handlesList = true
+				}
+			}
+			if res := g.Signature.Results(); res != nil {
+				for i := 0; i < res.Len(); i++ {
+					if strings.Contains(res.At(i).Type().String(), "ErrorList") {
+						handlesList = true
+					}
+				}
+			}
+			if handlesList {
+				seenFn[g] = true
+				region = append(region, g)
+			}
+		}
+	}
+	sort.Slice(region, func(i, j int) bool { return fnName(region[i]) < fnName(region[j]) })
+	for _, fn := range region {
 		if fn == nil {
 			continue
 		}
 		for _, f := range withClosures(fn) {
+			// every round of a loop over errors adds to the result: an element that is skipped
+			// under some condition (a duplicate, a nil entry, "one per message") is an error lost
+			for _, b := range f.Blocks {
+				l := naturalLoop(b)
+				if len(l) == 0 || !strings.Contains(f.Signature.String(), "Error") {
+					continue
+				}
+				hasAppend := false
+				for x := range l {
+					for _, ins := range x.Instrs {
+						if c, ok := ins.(*ssa.Call); ok {
+							if bi, ok := c.Call.Value.(*ssa.Builtin); ok && bi.Name() == "append" {
+								hasAppend = true
+							}
+						}
+					}
+				}
+				if !hasAppend {
+					continue // a loop that builds nothing (a search, a join of messages)
+				}
+				for _, s2 := range b.Succs {
+					if !l[s2] {
+						continue
+					}
+					all, _ := mustPassUntil(s2, b, func(i ssa.Instruction) bool {
+						c, ok := i.(*ssa.Call)
+						if !ok {
+							return false
+						}
+						bi, ok := c.Call.Value.(*ssa.Builtin)
+						return ok && bi.Name() == "append"
+					})
+					r.Check(all, rule, fnName(f), "every error of the list is kept", r.P.pos(firstPos(b)),
+						"every round of the loop appends to the result",
+						"a loop that rebuilds an error list can skip an element (duplicates by message, entries it does not like): which of several concurrent failures is reported then depends on their arrival order, and errors a service sent are lost")
+				}
+			}
 			for _, ins := range allInstrs(f) {
 				if sl, ok := ins.(*ssa.Slice); ok && namedOf(sl.X.Type()) == modPath+"/gqlerrors.ErrorList" {
 					if _, isLit := sl.X.(*ssa.Alloc); isLit {
